@@ -96,6 +96,12 @@ InterpreterEnv::InterpreterEnv(std::vector<valtype>& stack_in, const CScript& sc
         operational = false;
         return;
     }
+    // BIP342: the initial stack of a tapscript execution is limited as well
+    if (sigversion == SigVersion::TAPSCRIPT && stack_in.size() > MAX_STACK_SIZE) {
+        set_error(serror, SCRIPT_ERR_STACK_SIZE);
+        operational = false;
+        return;
+    }
     nOpCount = 0;
     fRequireMinimal = (flags & SCRIPT_VERIFY_MINIMALDATA) != 0;
     // figure out if p2sh
